@@ -1,0 +1,22 @@
+//go:build verif
+
+package encoding
+
+// Exports for the verification harness (/verif, properties C09/C10). Compiled only with -tags verif.
+
+// VerifBucketHeaderMarshal runs the unexported uint64MapBucketHeader.Marshal for the given layout.
+func VerifBucketHeaderMarshal(id uint64, tag Tag, length int, bucketBits int, tagBits int, buffer []byte) int {
+	layout := Uint64MapLayout{BucketBits: bucketBits, TagBits: tagBits}
+	h := uint64MapBucketHeader{ID: id, Tag: tag, Length: length}
+	return h.Marshal(buffer, &layout)
+}
+
+// VerifBucketHeaderUnmarshal runs the unexported uint64MapBucketHeader.Unmarshal for the given layout.
+func VerifBucketHeaderUnmarshal(buffer []byte, bucket int, bucketBits int, tagBits int) (uint64, Tag, int, int) {
+	layout := Uint64MapLayout{BucketBits: bucketBits, TagBits: tagBits}
+	var h uint64MapBucketHeader
+	n := h.Unmarshal(buffer, bucket, &layout)
+	return h.ID, h.Tag, h.Length, n
+}
+
+const VerifMaxBucketHeaderLength = maxUint64MapBucketHeaderLength
